@@ -8,7 +8,6 @@ import (
 	"strings"
 	"time"
 
-	"github.com/Trendyol/go-dcp/helpers"
 	"github.com/Trendyol/go-dcp/models"
 	"github.com/couchbase/gocbcore/v10"
 
@@ -63,6 +62,12 @@ func docPacket(kind string, seq uint64, key string, casClass string, coll uint32
 }
 
 // symbolPacket builds the packet for an alphabet symbol at sequence number seq.
+// the reserved prefixes as the documentation states them (deliberately not the library's constants)
+const (
+	reservedPrefix = "_connector:cbgo:"
+	txnPrefix      = "_txn:"
+)
+
 func symbolPacket(sym string, seq uint64) gocbcore.SimPacket {
 	switch sym {
 	case "M":
@@ -72,17 +77,17 @@ func symbolPacket(sym string, seq uint64) gocbcore.SimPacket {
 	case "E":
 		return docPacket("expiration", seq, fmt.Sprintf("doc%d", seq), "after", 0)
 	case "Mres":
-		return docPacket("mutation", seq, helpers.Prefix+"x:checkpoint:1", "after", 0)
+		return docPacket("mutation", seq, reservedPrefix+"x:checkpoint:1", "after", 0)
 	case "Mtxn":
-		return docPacket("mutation", seq, helpers.TxnPrefix+"abc", "after", 0)
+		return docPacket("mutation", seq, txnPrefix+[]string{"abc", "client-record", "atr-1"}[seq%3], "after", 0)
 	case "Dres":
-		return docPacket("deletion", seq, helpers.Prefix+"y", "after", 0)
+		return docPacket("deletion", seq, reservedPrefix+"y", "after", 0)
 	case "Mpart":
 		return docPacket("mutation", seq, "_connector:cbg", "after", 0)
 	case "Minfix": // an application key that merely CONTAINS a reserved prefix
-		return docPacket("mutation", seq, "order"+helpers.TxnPrefix+fmt.Sprint(seq), "after", 0)
+		return docPacket("mutation", seq, "order"+txnPrefix+fmt.Sprint(seq), "after", 0)
 	case "Dinfix":
-		return docPacket("deletion", seq, "x"+helpers.Prefix+"y", "after", 0)
+		return docPacket("deletion", seq, "x"+reservedPrefix+"y", "after", 0)
 	case "Mempty":
 		return docPacket("mutation", seq, "", "after", 0)
 	case "Mbin":
@@ -201,7 +206,7 @@ func (pp *pipe) kept(p gocbcore.SimPacket) bool {
 	if pp.skipped(p) {
 		return false
 	}
-	return !bytes.HasPrefix(p.Key, []byte(helpers.Prefix)) && !bytes.HasPrefix(p.Key, []byte(helpers.TxnPrefix))
+	return !bytes.HasPrefix(p.Key, []byte(reservedPrefix)) && !bytes.HasPrefix(p.Key, []byte(txnPrefix))
 }
 
 func (pp *pipe) skipped(p gocbcore.SimPacket) bool {
